@@ -10,6 +10,7 @@ TypeHandle.HasType on groups (pool of types x universe of constants) and
       `nice` of the soundness theorem (outside = known findings F7b, F7c, F7f).
 """
 import glob
+import itertools
 import json
 import os
 
@@ -57,7 +58,234 @@ def exhaustive_groups(small):
     n1 = len([t for t in tys if T.ty_depth(t) <= 1])
     step = 2 if not small else 5
     lists = [[i, j] for i in range(0, n1, step) for j in range(0, n1, step)]
+    # lists of two unions, both orders (thorough: every ordered pair of the unions of leaves; quick: those
+    # with a name-prefix alternative)
+    seen = set(map(tuple, lists))
+    lists += [l for l in union_pair_lists(tys, keep=(lambda u: any(_is_prefix_ty(x) for x in u[1])) if small else None)
+              if tuple(l) not in seen]
     return {"tys": tys, "consts": consts, "lists": lists, "pairs": True, "stream": "exh"}
+
+
+# --------------------------------------- union-overlap stream (seeded C12-2)
+# What the pools above rarely contain: two UNIONS that overlap alternative by
+# alternative (an alternative of one strictly wider than an alternative of the
+# other: /a vs /a/b, fn:List(/any) vs fn:List(/number), ...) while neither union
+# conforms to the other as a whole (so the conformance shortcuts of
+# intersectType / UpperBound do not answer first), handed to the bounds in
+# every order, together with the constants that separate the alternatives
+# (/a/x is in /a, not in /a/b).  The verdict stays the one of go_unsound_bounds
+# (Go's own answers) + the model comparison.
+CHAIN_ROOTS = ["/a", "/b", "/foo", "/ab", "/num", "/nam", "/number/x", "/name/x", "/bot/x", "/z"]
+CHAIN_SEGS = ["b", "bar", "c", "bc", "x"]
+FILLERS = [T.NUMBER, T.STRING, T.tc("/float64"), T.tc("/time"), T.tc("/duration"), T.tc("/bytes")]
+
+
+def _is_prefix_ty(t):
+    return t[0] == "c" and t[1] not in T.BASE
+
+
+def overlap_leaf(rng, root):
+    """(wide, narrow): two leaves, narrow a strict part of wide."""
+    p = root
+    if rng.random() < 0.35:
+        p += "/" + rng.choice(CHAIN_SEGS)
+    q = p + "/" + rng.choice(CHAIN_SEGS)
+    if rng.random() < 0.25:
+        q += "/" + rng.choice(CHAIN_SEGS)
+    r = rng.random()
+    if r < 0.60:
+        return T.tc(p), T.tc(q)
+    if r < 0.75:
+        return T.tc(p), T.tsing(T.cname(q))                 # a singleton inside a prefix type
+    if r < 0.88:
+        return T.NAME, rng.choice([T.tc(p), T.tc(q), T.tsing(T.cname(q))])
+    return T.tc(p), T.tunion([T.tc(q), T.tsing(T.cname(p + "/y"))])   # nested union as an alternative
+
+
+def overlap_pair(rng, root, env, depth):
+    """(wide, narrow) of one shape; the wrapping constructors are the covariant ones."""
+    if depth <= 0 or rng.random() < 0.55:
+        return overlap_leaf(rng, root)
+    k = rng.choice(["list", "list", "pair", "pair", "map", "struct", "tuple"])
+    if k in ("list", "pair") and rng.random() < 0.3:
+        w, n = T.ANY, rng.choice(FILLERS[:3] + [T.tc(root)])       # fn:List(/any) vs fn:List(/number)
+    else:
+        w, n = overlap_pair(rng, root, env, depth - 1)
+    side = rng.choice(FILLERS[:3] + [T.ANY, T.tc(root)])
+    if k == "list":
+        return T.tlist(w), T.tlist(n)
+    if k == "pair":
+        return (T.tpair(w, side), T.tpair(n, side)) if rng.random() < 0.5 else (T.tpair(side, w), T.tpair(side, n))
+    if k == "map":
+        return T.tmap(env["key"], w), T.tmap(env["key"], n)       # one key type per group (outside: F7b)
+    if k == "struct":
+        return T.tstruct([["/f", w]]), T.tstruct([["/f", n]])     # one field set per group (outside: F7c)
+    return T.ttuple([side, w, side]), T.ttuple([side, n, side])
+
+
+def make_overlap_group(rng, nlists):
+    env = {"key": rng.choice([T.STRING, T.NAME, T.NUMBER])}
+    roots = rng.sample(CHAIN_ROOTS, 3)
+    depth = rng.choice([0, 0, 1, 1, 2])
+    pairs = [overlap_pair(rng, roots[0], env, depth), overlap_pair(rng, roots[1], env, rng.choice([0, depth])),
+             overlap_leaf(rng, roots[2])]
+    (w1, n1), (w2, n2), (w3, n3) = pairs
+    fill = rng.sample(FILLERS, 3)
+    sh = lambda xs: rng.sample(xs, len(xs))
+    shape = rng.choice(["fill", "fill", "cross", "cross", "three", "chain"])
+    if shape == "fill":           # Union(/a,/number)  Union(/a/b,/string)
+        us = [T.tunion(sh([w1, fill[0]])), T.tunion(sh([n1, fill[1]])), T.tunion(sh([n1, w2, fill[2]]))]
+    elif shape == "cross":        # Union(/a,/b/c)  Union(/a/b,/b): each is wider in one alternative
+        us = [T.tunion(sh([w1, n2])), T.tunion(sh([n1, w2])), T.tunion(sh([w1, w2, fill[0]]))]
+    elif shape == "three":
+        us = [T.tunion(sh([w1, w2, fill[0]])), T.tunion(sh([n1, n2, fill[1]])), T.tunion(sh([n1, w3, fill[0], fill[1]]))]
+    else:                         # three levels of one chain against fillers
+        if _is_prefix_ty(n1):
+            n0 = T.tc(n1[1] + "/" + rng.choice(CHAIN_SEGS))
+        else:
+            n0 = n3
+        us = [T.tunion(sh([w1, fill[0]])), T.tunion(sh([n1, fill[1]])), T.tunion(sh([n0, fill[2]]))]
+    extra = [w1, n1, rng.choice([w2, n2]), T.tunion(sh([n1, n2])), T.tunion(sh([w1, w3, fill[1]])), fill[0]]
+    if rng.random() < 0.3:
+        extra.append(T.ANY)
+    us = T.dedup(us)
+    tys = T.dedup(us + extra)
+    nu = len(us)
+    # every order of every 2- and 3-element list of the unions; then lists mixing in the other types
+    lists = [list(p) for k in (2, 3) for p in itertools.permutations(range(nu), k)]
+    while len(lists) < nlists:
+        k = rng.choice([2, 2, 3, 3, 4])
+        l = [rng.randrange(len(tys)) for _ in range(k)]
+        if sum(1 for i in l if tys[i][0] == "union") >= 1:
+            lists.append(l)
+    consts = separating_universe(rng, tys)
+    return {"tys": tys, "consts": consts, "lists": lists[:max(nlists, 12)], "pairs": True, "stream": "union-overlap"}
+
+
+def _subterms(t, acc):
+    acc.append(t)
+    k = t[0]
+    if k in ("pair", "map"):
+        _subterms(t[1], acc); _subterms(t[2], acc)
+    elif k == "list":
+        _subterms(t[1], acc)
+    elif k in ("tuple", "union"):
+        for x in t[1]:
+            _subterms(x, acc)
+    elif k == "struct":
+        for _, x in t[1] + t[2]:
+            _subterms(x, acc)
+    elif k == "tagged":
+        for _, x in t[2]:
+            _subterms(x, acc)
+    return acc
+
+
+BASE_REPS = {"/number": T.cnum(7), "/string": T.cstr("s"), "/float64": ["float", 4607182418800017408],
+             "/time": ["time", 1000], "/duration": ["dur", 60], "/bytes": ["bytes", "x"]}
+
+
+def separating_universe(rng, tys, cap=12):
+    """Constants derived from the types (aiming only; membership is Go's answer):
+    for every name occurring in a prefix / singleton type /p/q the names /p/q,
+    /p/q/x, /p/q/x/y, /p/qx/y, /p/x (in the parent, outside the child); one
+    representative per base type; and these wrapped the way the structured
+    types of the group wrap their leaves."""
+    subs = []
+    for t in tys:
+        _subterms(t, subs)
+    subs = T.dedup(subs)
+    prefixes = []
+    for t in subs:
+        if _is_prefix_ty(t):
+            prefixes.append(t[1])
+        elif t[0] == "sing" and t[1][0] == "name":
+            prefixes.append(t[1][1])
+    prefixes = sorted(set(prefixes))
+
+    def near(p):
+        out = [p, p + "/x", p + "/x/y", p + "x/y"]
+        if p.count("/") > 1:
+            out.append(p.rsplit("/", 1)[0] + "/x")
+        for q in prefixes:
+            if q != p and (q.startswith(p + "/") or p.startswith(q + "/")):
+                out += [q + "/x", q]
+        return out
+
+    names = T.dedup([T.cname(s) for p in prefixes for s in near(p)])
+    reps = list(BASE_REPS.values())
+
+    def aim(t, fuel=3):
+        """members and near misses of t"""
+        k = t[0]
+        if k == "c":
+            if t[1] in BASE_REPS:
+                return [BASE_REPS[t[1]], rng.choice(reps)]
+            if t[1] in ("/any", "/name", "/bot"):
+                return rng.sample(names, min(4, len(names))) + [T.cnum(0)]
+            return [T.cname(s) for s in near(t[1])]
+        if k == "sing":
+            return [t[1]] + ([T.cname(s) for s in near(t[1][1])] if t[1][0] == "name" else [])
+        if fuel <= 0:
+            return []
+        if k == "union":
+            return [c for x in t[1] for c in aim(x, fuel - 1)]
+        if k == "list":
+            es = aim(t[1], fuel - 1)
+            out = [T.clist([])] + [T.clist([e]) for e in es]
+            if len(es) >= 2:
+                out.append(T.clist([es[0], es[-1]]))
+            return out
+        if k == "pair":
+            a, b = aim(t[1], fuel - 1), aim(t[2], fuel - 1)
+            return [T.cpair(x, y) for x in a[:5] for y in b[:5]]
+        if k == "tuple":
+            cols = [aim(x, fuel - 1) for x in t[1]]
+            if any(not c for c in cols):
+                return []
+            out = []
+            for j, col in enumerate(cols):           # vary one column at a time
+                for v in col[:5]:
+                    ms = [c[0] for c in cols]
+                    ms[j] = v
+                    r = T.cpair(ms[-2], ms[-1])
+                    for m in reversed(ms[:-2]):
+                        r = T.cpair(m, r)
+                    out.append(r)
+            return out
+        if k == "map":
+            ks, vs = aim(t[1], fuel - 1), aim(t[2], fuel - 1)
+            return [T.cmap([])] + [T.cmap([[ks[0], v]]) for v in vs[:6] if ks] + \
+                   [T.cmap([[kk, vs[0]]]) for kk in ks[1:3] if vs]
+        if k == "struct":
+            fs = t[1] + t[2]
+            cols = [aim(x, fuel - 1) for _, x in fs]
+            if any(not c for c in cols):
+                return [T.cstruct([])]
+            out = []
+            for j, col in enumerate(cols):
+                for v in col[:6]:
+                    ms = [c[0] for c in cols]
+                    ms[j] = v
+                    out.append(T.cstruct([[T.cname(f), m] for (f, _), m in zip(fs, ms)]))
+            return out
+        return []
+
+    cs = list(names) + reps
+    for t in subs:
+        if t[0] in ("c", "sing", "union"):
+            continue
+        a = T.dedup(aim(t))
+        cs += a if len(a) <= cap else a[:cap // 2] + rng.sample(a[cap // 2:], cap - cap // 2)
+    return T.dedup(cs)
+
+
+def union_pair_lists(tys, keep=None):
+    """Every ordered pair of the union types of the depth<=1 part of a grammar pool."""
+    us = [i for i, t in enumerate(tys) if t[0] == "union" and T.ty_depth(t) <= 1]
+    if keep is not None:
+        us = [i for i in us if keep(tys[i])]
+    return [[i, j] for i in us for j in us if i != j]
 
 
 # ------------------------------------------------- verdict on Go's own answers
@@ -314,6 +542,9 @@ def run(ck):
     for _ in range(nwild):
         depth = rng.choice([1, 2, 2, 3, 4])
         groups.append(make_group(rng, rng.choice([8, 10, 12]), depth, True, "wild"))
+    novl = ck.n(10, 150)
+    for _ in range(novl):
+        groups.append(make_overlap_group(rng, rng.choice([16, 20, 24])))
     exhaustive = not ck.quick
     groups.append(exhaustive_groups(small=ck.quick))
     ck.log("%d groups (%d corpus), exhaustive block: %d types x %d constants, %d bound lists"
